@@ -717,6 +717,7 @@ static int cmd_check(int argc, char** argv) {
   std::set<std::string> seen_cls;
   std::map<std::string, int> attempts;
   std::set<std::string> unconfirmed_cls;
+  std::map<std::string, std::pair<std::string, std::string>> unconfirmed_first;   // class -> (replay path, replay text) of its first candidate
   size_t confirmed = 0;
   for (auto& v : violations) {
     if (seen_cls.count(v.cls)) continue;
@@ -731,6 +732,18 @@ static int cmd_check(int argc, char** argv) {
     if (!first.violation) {
       fprintf(stderr, "[check] note: candidate of class %s at index %zu did not reproduce in a fresh process (got %s); trying another candidate of that class\n%s\n", v.cls.c_str(), v.index, first.ok ? "ok" : first.cls.c_str(), v.detail.c_str());
       unconfirmed_cls.insert(v.cls);
+      if (!unconfirmed_first.count(v.cls)) {
+        Json rj = plan.to_json(s.op_name);
+        rj.set("flavour", Json::Str(SIM_FLAVOUR));
+        Json ex = Json::Object();
+        ex.set("class", Json::Str(v.cls)); ex.set("detail", Json::Str(v.detail));
+        ex.set("reproduces_in_isolation", Json::Bool(false));
+        ex.set("note", Json::Str("reported inside a long-lived worker; the same plan executed alone in a fresh process did not produce the report"));
+        rj.set("expect", ex);
+        char name[256];
+        snprintf(name, sizeof name, "%s/replays/%s-%s-%llu-%08x.json", outdir.c_str(), cs.prop.c_str(), s.name, (unsigned long long)plan.seed, unsigned(hash_str(v.cls.c_str())));
+        unconfirmed_first[v.cls] = std::make_pair(std::string(name), rj.dump(1) + "\n");
+      }
       continue;
     }
     seen_cls.insert(v.cls);
@@ -775,8 +788,25 @@ static int cmd_check(int argc, char** argv) {
   }
 
   if (confirmed == 0 && !unconfirmed_cls.empty()) {
-    for (auto& c : unconfirmed_cls) fprintf(stderr, "HARNESS-DEFECT no candidate of class %s reproduced in a fresh process\n", c.c_str());
-    exit_code = 2;
+    // A ThreadSanitizer report is evidence by itself (the runtime has no false positives with the annotations in place), but
+    // whether the runtime still remembers the first of two racing accesses depends on its shadow-cell eviction, i.e. on what
+    // the worker process executed before: such a report may not reappear when the plan runs alone. It is then reported with
+    // the plan of its first candidate and marked as not reproducing in isolation. Every other class that does not reproduce
+    // is a harness problem.
+    for (auto& c : unconfirmed_cls) {
+      if (c.compare(0, 5, "tsan:") == 0 && unconfirmed_first.count(c)) {
+        write_file(unconfirmed_first[c].first, unconfirmed_first[c].second);
+        fprintf(stderr, "[check] violation class=%s (ThreadSanitizer report from a long-lived worker; not reproduced by the plan alone in a fresh process)\n", c.c_str());
+        printf("VIOLATION property=%s replay=%s\n", cs.prop.c_str(), unconfirmed_first[c].first.c_str());
+        replay_paths.push_back(unconfirmed_first[c].first);
+        confirmed++;
+        if (exit_code == 0) exit_code = 1;
+      }
+      else {
+        fprintf(stderr, "HARNESS-DEFECT no candidate of class %s reproduced in a fresh process\n", c.c_str());
+        exit_code = 2;
+      }
+    }
   }
 
   double wall = now_s() - t0;
